@@ -57,6 +57,17 @@ class DispatchLock:
         return self._real
 
     def acquire(self, blocking: bool = True, timeout: float = -1):
+        r = self._acquire(blocking, timeout)
+        # An explicit acquire() is a call of a C function in real life:
+        # when it returns, CPython checks for pending signals - before the
+        # caller's next statement (a ``try:``, say) has begun.  The
+        # with-statement has no such window, so __enter__ does not pass
+        # through here.
+        from . import trace
+        trace.after_call_returned("acquire")
+        return r
+
+    def _acquire(self, blocking: bool = True, timeout: float = -1):
         t = self._target()
         if t is self._real:
             return t.acquire(blocking, timeout)
@@ -75,7 +86,7 @@ class DispatchLock:
         return t.owner is not None
 
     def __enter__(self):
-        self.acquire()
+        self._acquire()
         return self
 
     def __exit__(self, *a) -> None:
